@@ -6,7 +6,7 @@ import typing as T
 
 from ..core import Undecided, attr_chain, norm, short, walk_no_nested, names_in, call_method
 from ..paths import enumerate_paths, Path
-from ..consteval import fold_expr, Regex
+from ..consteval import Folder, Regex
 from .. import rx
 from ..report import RuleCtx
 from .c02_model import model_for, NodeModel, MPARSER, params_of
@@ -14,34 +14,241 @@ from .c02_model import model_for, NodeModel, MPARSER, params_of
 TWO_NEWLINES = r'[\s\S]*\n[\s\S]*\n[\s\S]*'
 
 
+class _Env:
+    """Where an expression is to be read: the function whose single-definition locals may be read through (None: module level) and
+    the parameters of that function bound to (argument expression, environment of the caller)."""
+    def __init__(self, fn: T.Optional[ast.AST] = None, bound: T.Optional[T.Dict[str, T.Tuple[ast.AST, '_Env']]] = None):
+        self.fn = fn
+        self.bound = bound or {}
+        self.defs: T.Dict[str, T.List[T.Optional[ast.AST]]] = {}
+        if fn is not None:
+            for st in walk_no_nested(fn):
+                if isinstance(st, ast.Assign):
+                    for t in st.targets:
+                        for n in ast.walk(t):
+                            if isinstance(n, ast.Name):
+                                self.defs.setdefault(n.id, []).append(st.value if isinstance(t, ast.Name) else None)
+                elif isinstance(st, ast.AnnAssign) and isinstance(st.target, ast.Name):
+                    self.defs.setdefault(st.target.id, []).append(st.value)
+                elif isinstance(st, (ast.AugAssign, ast.For, ast.NamedExpr, ast.comprehension)):
+                    for n in ast.walk(st.target):
+                        if isinstance(n, ast.Name):
+                            self.defs.setdefault(n.id, []).extend([None, None])
+                elif isinstance(st, ast.Call) and isinstance(st.func, ast.Attribute) and isinstance(st.func.value, ast.Name) \
+                        and st.func.attr in ('append', 'extend', 'insert', 'update', 'pop', 'remove', 'sort', 'reverse', 'clear', 'add', 'discard', 'setdefault'):
+                    self.defs.setdefault(st.func.value.id, []).extend([None, None])     # mutated in place: not a constant
+
+    def lookup(self, name: str) -> T.Optional[T.Tuple[ast.AST, '_Env']]:
+        if name in self.bound:
+            return self.bound[name]
+        d = self.defs.get(name)
+        if d is not None:
+            if len(d) == 1 and d[0] is not None:
+                return d[0], self
+            raise Undecided(f'local `{name}` of the lexer table construction has several definitions or is modified in place')
+        return None
+
+
+def _callee(mod: T.Any, c: ast.Call, env: _Env) -> T.Optional[T.Tuple[ast.expr, _Env]]:
+    """A call of a module-level function / a method of Lexer that only computes a value (assignments + one return): the returned
+    expression and the environment that binds the parameters to the argument expressions of this call."""
+    name = attr_chain(c.func) or ''
+    fn = None
+    bound_self = False
+    if '.' not in name and mod.has_func(name):
+        fn = mod.func(name)
+    elif name.split('.')[0] in ('self', 'Lexer', 'cls') and name.count('.') == 1 and mod.has_func('Lexer.' + name.split('.')[1]):
+        fn = mod.func('Lexer.' + name.split('.')[1])
+        from ..core import decorator_names
+        bound_self = 'staticmethod' not in decorator_names(fn)
+    if fn is None:
+        return None
+    body = [st for st in fn.body if not (isinstance(st, ast.Expr) and isinstance(st.value, ast.Constant))]
+    if not body or not isinstance(body[-1], ast.Return) or body[-1].value is None \
+            or not all(isinstance(st, (ast.Assign, ast.AnnAssign)) for st in body[:-1]):
+        return None
+    a = fn.args
+    if a.vararg or a.kwarg or any(isinstance(x, ast.Starred) for x in c.args) or any(k.arg is None for k in c.keywords):
+        return None
+    pos = [x.arg for x in a.posonlyargs + a.args]
+    if bound_self:
+        pos = pos[1:]
+    bound: T.Dict[str, T.Tuple[ast.AST, _Env]] = {}
+    nodef = _Env()
+    for prm, dflt in zip(reversed(a.posonlyargs + a.args), reversed(a.defaults)):
+        bound[prm.arg] = (dflt, nodef)
+    for prm, dflt2 in zip(a.kwonlyargs, a.kw_defaults):
+        if dflt2 is not None:
+            bound[prm.arg] = (dflt2, nodef)
+    if len(c.args) > len(pos):
+        return None
+    for prm_name, arg in zip(pos, c.args):
+        bound[prm_name] = (arg, env)
+    for k in c.keywords:
+        bound[T.cast(str, k.arg)] = (k.value, env)
+    if any(p_ not in bound for p_ in pos + [x.arg for x in a.kwonlyargs]):
+        return None
+    return body[-1].value, _Env(fn, bound)
+
+
+def _alternatives(ctx: RuleCtx, mod: T.Any, e: ast.AST, env: _Env, depth: int = 0) -> T.List[T.Any]:
+    """Constant values an expression can take: conditional expressions contribute both arms (the test - a constructor flag - is
+    not decided), names are read through parameters / single-definition locals, everything else is folded."""
+    if depth > 12:
+        raise Undecided('lexer table construction nests too deep')
+    if isinstance(e, ast.IfExp):
+        return _alternatives(ctx, mod, e.body, env, depth + 1) + _alternatives(ctx, mod, e.orelse, env, depth + 1)
+    if isinstance(e, ast.Name):
+        got = env.lookup(e.id)
+        if got is not None:
+            return _alternatives(ctx, mod, got[0], got[1], depth + 1)
+    if isinstance(e, ast.Call) and (attr_chain(e.func) or '') in ('T.cast', 'typing.cast') and len(e.args) == 2:
+        return _alternatives(ctx, mod, e.args[1], env, depth + 1)
+    return [fold_expr(ctx.repo, mod, e)]
+
+
+def _spec_entries(ctx: RuleCtx, mod: T.Any, e: ast.AST, env: _Env, depth: int = 0) -> T.List[T.Tuple[str, T.List[T.Any]]]:
+    """Normal form of an expression that builds the ordered regex table: [(token id, [regex alternatives])].  Read through
+    displays with starred parts, `+`, copies (list()/tuple()/[:]/.copy()), names (parameters, single-definition locals, module
+    constants), value-only helper functions, and a conditional between two tables with the same ids."""
+    if depth > 12:
+        raise Undecided('lexer table construction nests too deep')
+    rec = lambda x, en=env: _spec_entries(ctx, mod, x, en, depth + 1)   # noqa: E731
+    if isinstance(e, (ast.List, ast.Tuple)):
+        out: T.List[T.Tuple[str, T.List[T.Any]]] = []
+        for el in e.elts:
+            if isinstance(el, ast.Starred):
+                out += rec(el.value)
+            else:
+                out.append(_spec_entry(ctx, mod, el, env, depth + 1))
+        return out
+    if isinstance(e, ast.BinOp) and isinstance(e.op, ast.Add):
+        return rec(e.left) + rec(e.right)
+    if isinstance(e, ast.Subscript) and isinstance(e.slice, ast.Slice) and e.slice.lower is None and e.slice.upper is None and e.slice.step is None:
+        return rec(e.value)
+    if isinstance(e, ast.IfExp):
+        a, b = rec(e.body), rec(e.orelse)
+        if [t for t, _ in a] != [t for t, _ in b]:
+            raise Undecided(f'token_specification: the two arms of `{short(e)}` declare different token ids')
+        return [(t, ra + [r for r in rb if r not in ra]) for (t, ra), (_, rb) in zip(a, b)]
+    if isinstance(e, ast.Name):
+        got = env.lookup(e.id)
+        if got is not None:
+            return _spec_entries(ctx, mod, got[0], got[1], depth + 1)
+        if mod.has_assign(e.id):
+            return _spec_entries(ctx, mod, mod.assign_value(e.id), _Env(), depth + 1)
+    if isinstance(e, ast.Attribute) and attr_chain(e) and attr_chain(e).split('.')[0] in ('self', 'Lexer', 'cls') and attr_chain(e).count('.') == 1 \
+            and mod.has_assign(e.attr, mod.cls('Lexer')):
+        return _spec_entries(ctx, mod, mod.assign_value(e.attr, mod.cls('Lexer')), _Env(), depth + 1)
+    if isinstance(e, ast.Call):
+        name = attr_chain(e.func) or ''
+        if name in ('list', 'tuple') and len(e.args) == 1 and not e.keywords:
+            return rec(e.args[0])
+        if name in ('T.cast', 'typing.cast') and len(e.args) == 2:
+            return rec(e.args[1])
+        if isinstance(e.func, ast.Attribute) and e.func.attr == 'copy' and not e.args:
+            return rec(e.func.value)
+        got2 = _callee(mod, e, env)
+        if got2 is not None:
+            return _spec_entries(ctx, mod, got2[0], got2[1], depth + 1)
+    raise Undecided(f'token_specification: `{short(e)}` is not read as an ordered table of (token id, regex) pairs')
+
+
+def _spec_entry(ctx: RuleCtx, mod: T.Any, el: ast.AST, env: _Env, depth: int) -> T.Tuple[str, T.List[T.Any]]:
+    if isinstance(el, ast.Name):
+        got = env.lookup(el.id)
+        if got is not None:
+            return _spec_entry(ctx, mod, got[0], got[1], depth + 1)
+        if mod.has_assign(el.id):
+            return _spec_entry(ctx, mod, mod.assign_value(el.id), _Env(), depth + 1)
+    if not (isinstance(el, ast.Tuple) and len(el.elts) == 2):
+        raise Undecided(f'token_specification entry {short(el)}')
+    tids = _alternatives(ctx, mod, el.elts[0], env, depth)
+    rs = _alternatives(ctx, mod, el.elts[1], env, depth)
+    if len(tids) != 1 or not isinstance(tids[0], str):
+        raise Undecided(f'token_specification entry {short(el)}: token id is not one constant string')
+    if not rs or not all(isinstance(r, Regex) for r in rs):
+        raise Undecided(f'token_specification entry {short(el)} does not fold to a regex')
+    return tids[0], rs
+
+
+def _fold_through(ctx: RuleCtx, mod: T.Any, e: ast.AST, env: _Env, depth: int = 0) -> T.Any:
+    """Fold a constant table; names are read through single-definition locals, value-only helpers are read through."""
+    try:
+        return fold_expr(ctx.repo, mod, e)
+    except Undecided:
+        if depth > 6:
+            raise
+        if isinstance(e, ast.Name):
+            got = env.lookup(e.id)
+            if got is not None:
+                return _fold_through(ctx, mod, got[0], got[1], depth + 1)
+        if isinstance(e, ast.Call):
+            name = attr_chain(e.func) or ''
+            if name in ('dict', 'set', 'list', 'tuple', 'frozenset') and len(e.args) == 1 and not e.keywords:
+                return _fold_through(ctx, mod, e.args[0], env, depth + 1)
+            if isinstance(e.func, ast.Attribute) and e.func.attr == 'copy' and not e.args:
+                return _fold_through(ctx, mod, e.func.value, env, depth + 1)
+            got2 = _callee(mod, e, env)
+            if got2 is not None:
+                return _fold_through(ctx, mod, got2[0], got2[1], depth + 1)
+        raise
+
+
 def lexer_tables(ctx: RuleCtx) -> T.Tuple[T.List[T.Tuple[str, T.List[Regex]]], T.Dict[str, str], T.Set[str]]:
     mod = ctx.repo.module(MPARSER)
+    cached = mod.__dict__.get('_c02_lexer_tables')
+    if cached is not None:
+        return cached
     init = mod.func('Lexer.__init__')
     spec: T.List[T.Tuple[str, T.List[Regex]]] = []
     single: T.Dict[str, str] = {}
     kws: T.Set[str] = set()
+    env = _Env(init)
     for st in walk_no_nested(init):
-        if not isinstance(st, ast.Assign):
+        if not isinstance(st, (ast.Assign, ast.AnnAssign)) or st.value is None:
             continue
-        tgt = attr_chain(st.targets[0])
+        tgt = attr_chain(st.targets[0] if isinstance(st, ast.Assign) else st.target)
         if tgt == 'self.token_specification':
-            if not isinstance(st.value, ast.List):
-                raise Undecided('token_specification is not a list display')
-            for el in st.value.elts:
-                if not (isinstance(el, ast.Tuple) and len(el.elts) == 2 and isinstance(el.elts[0], ast.Constant)):
-                    raise Undecided(f'token_specification entry {short(el)}')
-                alts = [el.elts[1].body, el.elts[1].orelse] if isinstance(el.elts[1], ast.IfExp) else [el.elts[1]]
-                rs = [fold_expr(ctx.repo, mod, a) for a in alts]
-                if not all(isinstance(r, Regex) for r in rs):
-                    raise Undecided(f'token_specification entry {short(el)} does not fold to a regex')
-                spec.append((el.elts[0].value, rs))
+            if spec:
+                raise Undecided('token_specification is assigned more than once in Lexer.__init__')
+            spec = _spec_entries(ctx, mod, st.value, env)
         elif tgt == 'self.single_char_tokens':
-            single = fold_expr(ctx.repo, mod, st.value)
+            single = _fold_through(ctx, mod, st.value, env)
+            if not isinstance(single, dict):
+                raise Undecided('single_char_tokens does not fold to a mapping')
         elif tgt in ('self.keywords', 'self.future_keywords'):
-            kws |= set(fold_expr(ctx.repo, mod, st.value))
+            kws |= set(_fold_through(ctx, mod, st.value, env))
     if not spec or not single:
         raise Undecided('lexer tables not found in Lexer.__init__')
+    mod.__dict__['_c02_lexer_tables'] = (spec, single, kws)
     return spec, single, kws
+
+
+class _TableFolder(Folder):
+    """Constant folding that also reads the total lookups of a constant mapping: `M.get(k[, d])`."""
+    def f_Call(self, e: ast.Call) -> T.Any:
+        if isinstance(e.func, ast.Attribute) and e.func.attr == 'get' and 1 <= len(e.args) <= 2 and not e.keywords:
+            base = self.fold(e.func.value)
+            if isinstance(base, dict):
+                k = self.fold(e.args[0])
+                d = self.fold(e.args[1]) if len(e.args) == 2 else None
+                try:
+                    return base.get(k, d)
+                except TypeError as ex:
+                    raise Undecided(f'cannot fold {short(e)}: {ex}')
+        return super().f_Call(e)
+
+    def f_Compare(self, e: ast.Compare) -> T.Any:
+        if len(e.ops) == 1 and isinstance(e.ops[0], (ast.Is, ast.IsNot)):
+            l, r = self.fold(e.left), self.fold(e.comparators[0])
+            if r is None or l is None:
+                return (l is r) if isinstance(e.ops[0], ast.Is) else (l is not r)
+        return super().f_Compare(e)
+
+
+def fold_expr(repo: T.Any, mod: T.Any, e: ast.AST, env: T.Optional[T.Dict[str, T.Any]] = None) -> T.Any:   # noqa: F811 (shadows the engine's on purpose)
+    return _TableFolder(repo, mod, None, env).fold(e)
 
 
 def fold_cond(repo: T.Any, mod: T.Any, e: ast.AST, env: T.Dict[str, T.Any]) -> T.Optional[bool]:
@@ -163,6 +370,42 @@ def _feasible(ctx: RuleCtx, mod: T.Any, p: Path, tid: str, mode: str, spec_loop:
     cur: T.Optional[str] = tid if mode == 'regex' else None
     took_loop = False
     info: T.Dict[str, T.Any] = {'assigned': [], 'guards': [], 'stmts': []}
+    # locals computed from the token id and constants only (`delta = TABLE.get(tid)`): their value is known for this token id, so
+    # tests on them select paths exactly like tests on the id itself; `tainted` ones depend on the id but could not be folded
+    derived: T.Dict[str, T.Any] = {}
+    tainted: T.Set[str] = set()
+    role_names = {R['tid'], R['value'], R['lineno'], R['line_start'], R['loc'], R['mo']}
+
+    def bind_derived(target: ast.AST, value: ast.AST) -> None:
+        tnames = [n.id for n in ast.walk(target) if isinstance(n, ast.Name)]
+        if not tnames or any(n in role_names for n in tnames) or any(not isinstance(n, (ast.Name, ast.Tuple, ast.List)) for n in ast.walk(target)
+                                                                      if not isinstance(n, ast.expr_context)):
+            return
+        deps = names_in(value)
+        if not (R['tid'] in deps or deps & (set(derived) | tainted)):
+            for n in tnames:
+                derived.pop(n, None)
+                tainted.discard(n)
+            return
+        val: T.Any = None
+        ok = cur is not None and not (deps & tainted)
+        if ok:
+            try:
+                val = fold_expr(ctx.repo, mod, value, env={**derived, R['tid']: cur})
+            except (Undecided, TypeError):
+                ok = False
+        if ok and isinstance(target, (ast.Tuple, ast.List)):
+            ok = isinstance(val, (tuple, list)) and len(val) == len(target.elts) and all(isinstance(t, ast.Name) for t in target.elts)
+        for n in tnames:
+            derived.pop(n, None)
+            tainted.discard(n)
+        if not ok:
+            tainted.update(tnames)
+        elif isinstance(target, ast.Name):
+            derived[target.id] = val
+        else:
+            for t, v in zip(target.elts, val):      # type: ignore[union-attr]
+                derived[t.id] = v                   # type: ignore[attr-defined]
     for ev in p.events:
         if ev.kind == 'iter' and spec_loop is not None and ev.node is spec_loop:
             if ev.val == 'iter':
@@ -185,8 +428,13 @@ def _feasible(ctx: RuleCtx, mod: T.Any, p: Path, tid: str, mode: str, spec_loop:
                 if mode == 'single' and ev.val:
                     return None
                 continue
-            if R['tid'] in names and cur is not None:
-                v = fold_cond(ctx.repo, mod, ev.node, {R['tid']: cur})    # other names may be module-level constant tables
+            if isinstance(ev.node, ast.NamedExpr) and isinstance(ev.node.target, ast.Name):
+                bind_derived(ev.node.target, ev.node.value)
+            if names & tainted:
+                info.setdefault('open', []).append(ev.node)               # depends on the token id through a local that was not folded
+                continue
+            if (R['tid'] in names or names & set(derived)) and (cur is not None or R['tid'] not in names):
+                v = fold_cond(ctx.repo, mod, ev.node, {**derived, R['tid']: cur} if cur is not None else dict(derived))    # other names may be module-level constant tables
                 if v is None:
                     info.setdefault('open', []).append(ev.node)           # a test on the token id that cannot be decided
                 elif v != ev.val:
@@ -204,6 +452,13 @@ def _feasible(ctx: RuleCtx, mod: T.Any, p: Path, tid: str, mode: str, spec_loop:
             for t in st.targets[0].elts:
                 if isinstance(t, ast.Name) and t.id in (R['lineno'], R['line_start']):
                     info['assigned'].append(('lineno' if t.id == R['lineno'] else 'line_start', st))
+        if isinstance(st, ast.Assign) and len(st.targets) == 1:
+            bind_derived(st.targets[0], st.value)
+        elif isinstance(st, ast.AnnAssign) and st.value is not None:
+            bind_derived(st.target, st.value)
+        elif isinstance(st, ast.AugAssign) and isinstance(st.target, ast.Name) and st.target.id in derived:
+            del derived[st.target.id]
+            tainted.add(st.target.id)
         if isinstance(st, (ast.Assign, ast.AugAssign)):
             tg = st.targets[0] if isinstance(st, ast.Assign) else st.target
             if isinstance(tg, ast.Name):
@@ -214,6 +469,8 @@ def _feasible(ctx: RuleCtx, mod: T.Any, p: Path, tid: str, mode: str, spec_loop:
                         cur = tid
                     else:
                         cur = None
+                    tainted.update(derived)       # values computed from the previous id are stale
+                    derived.clear()
                 if tg.id in (R['lineno'], R['line_start']):
                     info['assigned'].append(('lineno' if tg.id == R['lineno'] else 'line_start', st))
     if mode == 'regex' and not took_loop:
